@@ -315,11 +315,18 @@ where
                             g.active = true;
                         }
                         if let Err(p) = crate::panicx::catch(|| f(i, &mut local)) {
-                            rep.machinery_error(&format!(
-                                "harness panic outside a guarded subject call: {} on item {}",
-                                p.describe(),
-                                desc(i)
-                            ));
+                            if p.in_subject() {
+                                // a panic raised inside the subject's own code is an observation even
+                                // where the harness did not expect one
+                                let case = local.cur_case.lock().unwrap().as_ref().map(|c| c.json()).unwrap_or_else(|| desc(i));
+                                rep.violation_conclusive(&p.class(), &format!("the library panicked: {}", p.describe()), case, 0);
+                            } else {
+                                rep.machinery_error(&format!(
+                                    "harness panic outside a guarded subject call: {} on item {}",
+                                    p.describe(),
+                                    desc(i)
+                                ));
+                            }
                         }
                         slots[t].lock().unwrap().active = false;
                     }
